@@ -109,6 +109,9 @@ def fd6(fn, p, h):
     return g
 
 
+THOROUGH = [False]
+
+
 def _grid_case(arg):
     rname, method, mixed, ci, rot, seed = arg
     res = WorkerResult(section=f"{method}")
@@ -130,7 +133,13 @@ def _grid_case(arg):
     Yq = harm.ylm_f64(lcap, uq)
     nrows_basis = (lbasis + 1) ** 2
     lm = harm.horton_lm(lcap)
-    rows = list(range(len(lm))) if len(lm) <= 16 else sorted(set(list(range(9)) + list(range(9, len(lm), 3)) + [len(lm) - 1]))
+    # every (l, m) in the thorough tier; the quick tier takes every second row beyond l = 2, with an offset that differs
+    # between configurations so that the union over the configurations of one run is every row
+    off = (ci + len(rname) + len(method) + int(mixed)) % 2
+    if len(lm) <= 16 or THOROUGH[0]:
+        rows = list(range(len(lm)))
+    else:
+        rows = sorted(set(list(range(9)) + list(range(9 + off, len(lm), 2)) + [len(lm) - 1]))
     for row in rows:
         l, m = lm[row]
         for si, shape in enumerate(SHAPES):
@@ -206,9 +215,11 @@ def _grid_case(arg):
                         uu, rr = unit_and_r(qq, centre)
                         rad1 = np.asarray(interp(qq, deriv=1, only_radial_deriv=True), dtype=float)
                         rad2 = np.asarray(interp(qq, deriv=2, only_radial_deriv=True), dtype=float)
+                        rad3 = np.asarray(interp(qq, deriv=3, only_radial_deriv=True), dtype=float)
                         yy = harm.ylm_f64(lcap, uu)[row]
-                        w1, w2 = spl[row](rr, 1) * yy, spl[row](rr, 2) * yy
-                        if _gt(np.max(np.abs(rad1 - w1)), 1e-9 * (np.max(np.abs(w1)) + fscale)) or _gt(np.max(np.abs(rad2 - w2)), 1e-9 * (np.max(np.abs(w2)) + fscale)):
+                        w1, w2, w3 = spl[row](rr, 1) * yy, spl[row](rr, 2) * yy, spl[row](rr, 3) * yy
+                        if _gt(np.max(np.abs(rad1 - w1)), 1e-9 * (np.max(np.abs(w1)) + fscale)) or _gt(np.max(np.abs(rad2 - w2)), 1e-9 * (np.max(np.abs(w2)) + fscale)) \
+                                or rad3.shape != w3.shape or _gt(np.max(np.abs(rad3 - w3)), 1e-9 * (np.max(np.abs(w3)) + fscale)):
                             res.violation(f"{tag}:radial-derivative", f"g Y_({l},{m}): radial-only derivatives differ from spline derivatives x harmonics", c2)
                         sph = np.asarray(interp(qq, deriv=1, deriv_spherical=True), dtype=float)
                         if sph.shape == (3 * len(qq),):
@@ -344,6 +355,7 @@ class World:
 
 
 def run(ctx):
+    THOROUGH[0] = bool(ctx.thorough)
     jobs = []
     for rname in ("becke-gc12", "linear-cc9-r0"):
         for method in DEGREES:
@@ -369,6 +381,7 @@ def run(ctx):
 
 
 def replay(ctx, case):
+    THOROUGH[0] = bool(ctx.thorough)
     if case.get("route") == "grid":
         ctx.merge(_grid_case((case["rgrid"], case["method"], case["mixed"], case["centre"], case["rotate"], ctx.seed)))
     elif case.get("route") == "molecular":
